@@ -46,6 +46,24 @@ def check(run):
             else:
                 p.append(dict(op="Peek", arg=0))
         plans.append(p)
+    # sawtooth: grow past the usual resize thresholds, drain below a quarter / to empty, refill
+    for kind in ("queue", "stack"):
+        ins, rem = ("Enqueue", "Dequeue") if kind == "queue" else ("Push", "Pop")
+        for peak in ((70, 130) if run.quick() else (70, 130, 300, 1100)):
+            p = [dict(op="Reset", kind=kind)]
+            v = 0
+            for target in (peak, peak // 5, peak // 2, 0, 5, 0):
+                cur = sum(1 for c in p if c["op"] == ins) - sum(1 for c in p if c["op"] == rem)
+                while cur < target:
+                    v += 1
+                    p.append(dict(op=ins, arg=v))
+                    cur += 1
+                while cur > target:
+                    p.append(dict(op=rem, arg=0))
+                    cur -= 1
+                p.append(dict(op="Peek", arg=0))
+            p += [dict(op=rem, arg=0), dict(op="Peek", arg=0)]
+            plans.append(p)
     segs = execute(run, plans)
     if len(segs) != len(plans):
         raise Inconclusive("driver returned %d segments for %d plans" % (len(segs), len(plans)))
